@@ -45,6 +45,73 @@ def set_id_dispatch_rule(ctx, prog, an, rid, only_data=False):
         ctx.ob(rid, fb.path, "id=%d" % idv, got == want, "set id %d reaches template parsers %s, expected %s" % (idv, sorted(got), sorted(want)))
 
 
+def validity_accepts_wellformed(ctx, prog, an, rid):
+    """The IPFIX validity predicate (`is_valid`) that keeps a parsed template record out of the cache may examine
+    the counts in the record header, but it must still accept every well-formed combination of them: decided by
+    evaluating the predicate's branches (comparisons of `field_count` / `scope_field_count` with each other and with
+    constants; private helpers inlined at CFG level) at the corner values RFC 7011 allows - everything that is not a
+    comparison of these header fields is left unknown."""
+    IPX = "variable_versions::ipfix::"
+    COMBOS = {"Template": [{"field_count": 1}, {"field_count": 2}, {"field_count": 65535}],
+              "OptionsTemplate": [{"field_count": 1, "scope_field_count": 1}, {"field_count": 2, "scope_field_count": 1},
+                                  {"field_count": 2, "scope_field_count": 2}, {"field_count": 3, "scope_field_count": 1},
+                                  {"field_count": 65535, "scope_field_count": 1}, {"field_count": 65535, "scope_field_count": 65535}]}
+    n = 0
+    from . import c06 as _c06p
+    preds = _c06p.validity_predicates(prog, an)
+    for tname, combos in sorted(COMBOS.items()):
+        adt = IPX + tname
+        cal = preds.get("templates" if tname == "Template" else "options_templates")
+        path = None
+        if cal is not None:
+            meth = cal.path.rsplit("::", 1)[-1]
+            own = [p for p, b in prog.bodies.items() if p.endswith("::" + meth) and not b.derived and (b.parent_impl or {}).get("self_ty") == adt]
+            path = (own or ([cal.path] if cal.path in prog.bodies else []) or [None])[0]
+        if not ctx.anchor(rid, adt + " validity predicate", path):
+            continue
+
+        def pred(q):
+            cb = prog.bodies.get(q)
+            return cb is not None and not cb.derived and cb.nblocks <= 120 and q.startswith(IPX)
+        b = prog.inlined_body(path, pred, key="valid") or prog.bodies[path]
+        for combo in combos:
+            assume = {}
+            for l in range(1, len(b.locals)):
+                try:
+                    e = peel(an.local(b, l), widen=True)
+                except RecursionError:
+                    continue
+                if e[0] == "field" and e[2] in combo:
+                    base = peel(e[1])
+                    while base[0] in ("ref", "deref"):
+                        base = peel(base[1])
+                    if base[0] == "arg":
+                        assume[canon(e)] = combo[e[2]]
+            n += 1
+            if not assume:
+                ctx.ob(rid, path, "accepts:%s" % ",".join("%s=%d" % kv for kv in sorted(combo.items())), True, "the predicate does not examine the header counts")
+                continue
+            r = reach_assuming(an, b, assume)
+            vals = []
+            for blk in sorted(r):
+                for st in b.blocks[blk]["stmts"]:
+                    if st["k"] == "assign" and st["place"]["l"] == 0 and not st["place"].get("p"):
+                        rv = st["rv"]
+                        if rv["k"] == "use" and rv["op"].get("k") == "const":
+                            vals.append(eval_assuming(an.op(b, rv["op"]), {}))
+                        else:
+                            v = eval_assuming(an.op(b, rv["op"]), assume) if rv["k"] == "use" else None
+                            vals.append(v)
+                t = b.blocks[blk]["term"]
+                if t["k"] == "call" and t.get("dest") and t["dest"]["l"] == 0 and not t["dest"].get("p"):
+                    vals.append(None)
+            can_true = (not vals) or any(v is None or v for v in vals)
+            ctx.ob(rid, path, "accepts:%s" % ",".join("%s=%d" % kv for kv in sorted(combo.items())), can_true,
+                   ("is_valid cannot return true for a %s record with %s, which RFC 7011 allows: such a template is never cached and its data never decodes" % (tname, combo)) if not can_true
+                   else "can be accepted (return values reachable under the assumption: %s)" % sorted(set("unknown" if v is None else bool(v) for v in vals), key=str), site=site(prog.bodies[path].span))
+    ctx.floor(rid, "ipfix", "well-formed header-count combinations evaluated", n, 9)
+
+
 def run(ctx, env):
     prog = env.prog("default")
     an = An(prog)
@@ -80,6 +147,12 @@ def run(ctx, env):
     ctx.rule("R5.10", "records are all-or-nothing: a decode step whose failure is tolerated (taken as the start of padding) has not appended anything to the reported collection by the time it fails - helpers that fill an out-parameter either have their failure propagated or insert only after their last fallible step")
     from . import consume as _cons
     _cons.partial_output_rule(ctx, prog, an, "R5.10", lambda b: b.path.startswith(("variable_versions::ipfix::", "variable_versions::data_number::")))
+    ctx.rule("R5.13", "the IPFIX validity predicate accepts every well-formed template record: for the corner combinations of field_count / scope_field_count that RFC 7011 allows (scope = field_count, a single field, the maximum count) is_valid - evaluated at those values through its comparisons of the header counts - can still return true")
+    validity_accepts_wellformed(ctx, prog, an, "R5.13")
+    ctx.rule("R5.12", "a data set is decoded with the template in force at that point of the stream: every function that writes a template cache is reached from parse_bytes only through the per-flowset / per-set decode call of its protocol (FlowSet::parse), one flowset at a time and in order - no pre-pass over the packet learns templates ahead of the data that precedes them (shared with C06 R6.9)")
+    from .cache import CacheAccess as _CA12
+    from . import c06 as _c06s
+    _c06s.rule_learned_in_stream_order(ctx, prog, _CA12(prog, an), "R5.12", only="IPFixParser")
     ctx.rule("R5.11", "the records a decoder reports are made by that decode alone: every element added to the reported collection derives from the input slice, and the collection itself is created by the call - not the drained / taken content of storage kept in the parser object (a reusable buffer that a failed decode leaves half-filled would surface in a later packet) (shared with C02 R2.10)")
     _cons.foreign_rule(ctx, prog, an, "R5.11", lambda b: b.path.startswith(("variable_versions::ipfix::", "variable_versions::data_number::")), floor=0)
     # R5.9
